@@ -8,14 +8,16 @@ from ..core.vtime import VLoop, TICK, Idle, VirtualTimeout
 def pitems(p):
     out = []
     for d, x in p:
-        if x == 'F':
+        if x in ('F', 'C'):
             break
         out.append(x)
     return out
 
 
 def gen(rng, flavor):
-    """Program = list of ('s', t, kind, producer) / ('w', t, id, cancel); producer = [(delay, item|'F')]."""
+    """Program = list of ('s', t, kind, producer) / ('w', t, id, cancel); producer = [(delay, item|'F'|'C')]
+    ('F': the producer raises ValueError there; 'C': it raises CancelledError, as an awaited task that its owner cancelled
+    does - the model treats both as 'the producer fails')."""
     T = rng.choice([64, 256, 1024, 4096]) if flavor == 'c08' else rng.choice([64, 256]) * 16
     n = rng.randint(1, 8)
     t = 0
@@ -39,7 +41,7 @@ def gen(rng, flavor):
             p = [(0, item)]
             item += 1
         elif kind == 'await':
-            p = [(rng.choice([0, 16, T // 2, T + 32]), rng.choice([item, item, 'F']))]
+            p = [(rng.choice([0, 16, T // 2, T + 32]), rng.choice([item, item, item, 'F', 'C']))]
             item += 1
         elif kind in ('map', 'mapiter', 'mapre'):
             k = rng.randint(0, 3)
@@ -54,7 +56,7 @@ def gen(rng, flavor):
                 p.append((rng.choice([0, 16, T // 2, T + 32]), item))
                 item += 1
             if rng.random() < 0.3:
-                p.insert(rng.randint(0, len(p)), (rng.choice([0, 16]), 'F'))
+                p.insert(rng.randint(0, len(p)), (rng.choice([0, 16]), rng.choice(['F', 'F', 'C'])))
         prog.append(('s', t, kind, p))
         if flavor == 'c07' and rng.random() < 0.3:
             # `buffer(x); await buffer.wait()` by one task in one loop step
@@ -69,7 +71,7 @@ def gen(rng, flavor):
 
 
 def enc_producer(p):
-    return '+'.join(f"{d}.{'F' if x == 'F' else x}" for d, x in p) if p else 'e'
+    return '+'.join(f"{d}.{'F' if x in ('F', 'C') else x}" for d, x in p) if p else 'e'
 
 
 def model_line(T, prog, outcomes):
@@ -128,6 +130,8 @@ def run_real(T, prog, outcomes, shutdown_at=None, make_buffer=None):
                 await asyncio.sleep(d * TICK)
                 if x == 'F':
                     raise ValueError('p')
+                if x == 'C':
+                    raise asyncio.CancelledError()
                 yield x
 
         async def aw(p):
@@ -135,6 +139,8 @@ def run_real(T, prog, outcomes, shutdown_at=None, make_buffer=None):
             await asyncio.sleep(d * TICK)
             if x == 'F':
                 raise ValueError('p')
+            if x == 'C':
+                raise asyncio.CancelledError()
             return x
 
         def it(p):
